@@ -85,6 +85,10 @@ def lean_chars(s):
     return "[" + ", ".join(lean_char(c) for c in s) + "]"
 
 
+def lean_path(comps):
+    return "[" + ", ".join(lean_chars(c) for c in comps) + "]"
+
+
 def lean_str(s):
     return '"' + s.replace("\\", "\\\\").replace('"', '\\"').replace("\n", "\\n").replace("\t", "\\t") + '"'
 
@@ -119,8 +123,9 @@ def main():
     m = re.search(r"impl\s+TemplateValues\s*\{(.*?)\n\}", src, re.S)
     if not m:
         die("impl TemplateValues not found")
-    fields = re.findall(r"(\w+):\s*(.+?),\n", m.group(1))
-    short = re.search(r"Self\s*\{(.*?)\}", m.group(1), re.S)
+    short = re.search(r"Self\s*\{([^{}]*)\}", m.group(1), re.S)
+    if not short:
+        die("TemplateValues::new: Self { … } literal not found")
     values = []
     for line in short.group(1).strip().split("\n"):
         line = line.strip().rstrip(",")
@@ -195,9 +200,10 @@ def main():
     tp += "/-- `TemplateValues::new`: field := expression, as written in the source. -/\n"
     tp += "def valuesShape : List (String × String) := [\n" + ",\n".join(f"  ({lean_str(k)}, {lean_str(v)})" for k, v in values) + "\n]\n\n"
     tp += "/-- `create_project_directories`: the directories, in loop order (components below the project root). -/\n"
-    tp += "def projectDirs : List (List String) := [" + ", ".join("[" + ", ".join(lean_str(c) for c in d) + "]" for d in dirs) + "]\n\n"
+    tp += "def projectDirs : List (List (List Char)) := [\n" + ",\n".join("  " + lean_path(d) for d in dirs) + "\n]\n"
+    tp += "-- i.e. " + ", ".join("/".join(d) for d in dirs) + "\n\n"
     tp += "/-- `program_keypair_relative_path`: directory components and file-name suffix after the artifact name. -/\n"
-    tp += "def keypairDir : List String := [" + ", ".join(lean_str(c) for c in kp_dir) + "]\n"
+    tp += "def keypairDir : List (List Char) := " + lean_path(kp_dir) + "  -- " + "/".join(kp_dir) + "\n"
     tp += "def keypairSuffix : List Char := " + lean_chars(kp_suffix) + "\n\n"
     tp += f"/-- `println!` invocations of `new_project_in` after a successful scaffold. -/\ndef printlnCount : Nat := {printlns}\n\n"
     tp += f"/-- Attempts of the staging-name loop in `staging_directory_for`. -/\ndef stagingAttempts : Nat := {attempts}\n\n"
@@ -205,8 +211,11 @@ def main():
         ident = "tpl_" + re.sub(r"\W", "_", os.path.basename(tname))
         tp += f"/-- `{tname}` ({len(text)} chars) -/\ndef {ident} : List Char := {lean_chars(text)}\n\n"
     tp += "/-- `write_project_files`: (output path below the project root, template text), in write order. -/\n"
-    tp += "def projectFiles : List (List String × List Char) := [\n" + ",\n".join(
-        "  ([" + ", ".join(lean_str(c) for c in rel) + "], tpl_" + re.sub(r"\W", "_", os.path.basename(tname)) + ")" for tname, rel, _ in files) + "\n]\n\n"
+    tp += "def projectFiles : List (List (List Char) × List Char) := [\n" + ",\n".join(
+        "  (" + lean_path(rel) + ", tpl_" + re.sub(r"\W", "_", os.path.basename(tname)) + ")" for tname, rel, _ in files) + "\n]\n"
+    tp += "-- i.e. " + ", ".join("/".join(rel) for _, rel, _ in files) + "\n\n"
+    tp += "/-- Template source file name of each entry of `projectFiles` (for the driver's `rendertpl` op). -/\n"
+    tp += "def templateNames : List String := [" + ", ".join(lean_str(os.path.basename(tname)) for tname, _, _ in files) + "]\n\n"
     tp += "/-- Template files present in src/template but not written by `write_project_files`. -/\n"
     tp += "def unusedTemplates : List String := [" + ", ".join(lean_str(u) for u in unused) + "]\n\nend Cli.Generated\n"
 
